@@ -142,6 +142,11 @@ def general_queries(t):
         "Select(ds, lambda e: (lambda e: e.pt + 1)(First(e.jets)))",
         "Select(ds, lambda e: (lambda e, b: Count(Where(e.tracks, lambda e: e.pt > b)))(First(e.jets), e.met))",
         "Select(ds, lambda x: (lambda x: Select(x.tracks, lambda t: t.pt + x.pt))(First(x.jets)))",
+        # an inner lambda re-binds an outer name that occurs in an already substituted argument
+        "Count(SelectMany(ds, lambda a: SelectMany(Select(SelectMany(a.tracks, lambda b: a.jets), lambda c: First(a.tracks)), "
+        "lambda d: SelectMany(Where(a.jets, lambda f: a.met != f.eta), lambda a: SelectMany(Where(Select(ds, lambda g: "
+        "{'a': g, 'b': g.met}), lambda h: d.z0 == 5), lambda i: ds)))))",
+        "Select(Select(ds, lambda a: First(a.jets)), lambda d: Count(Where(ds, lambda a: Count(Where(a.jets, lambda k: k.pt > d.pt)) > 0)))",
         # keyword-called lambdas (left as calls) whose parameter names also occur in a substituted value
         "Select(Select(ds, lambda e: (lambda a, b: a - b)(e.met, b=1)), lambda v: (lambda a, b: a * b)(v, b=v + 1))",
         "Select(Select(Select(ds, lambda e: (lambda a, b: a - b)(e.met, b=Count(e.jets))), lambda v: v + 2), lambda w: (lambda a, b: a * 10 + b)(w + w, b=3 if 0 < 1 else w))",
